@@ -64,6 +64,26 @@ SKIPPED_ONLY = [("dead", "#error E"), ("dead", '#include "nonexistent.h"'), ("de
                 ("if", "1 +"), ("if", "(1 / 0"), ("elif", "1 +"), ("elif", "1 / 0")]
 
 
+# Lines that have NO effect on the conditional machine wherever they stand (C11 6.10.7 null directive, 6.10.6 #pragma,
+# 6.10.3 #define whose replacement list merely looks like a directive, #undef / #line of something unrelated): in an
+# active group they are executed and change nothing that is observed, in a skipped group they are passed over.  They
+# are rendered WITHOUT a probe line, so the next directive of the sequence follows them directly.
+# (kind, text, class name used in signatures)
+INERT = [("inert", "#", "null-directive"), ("inert", "# /* c */", "null-directive"), ("inert", "#\t// c", "null-directive"),
+         ("inert", "#pragma c10 p", "#pragma"),
+         ("inert", "#define Y #else", "#define-with-directive-like-body"),
+         ("inert", "#define W # endif", "#define-with-directive-like-body"),
+         ("inert", "#define Z 1 \\\n#endif", "#define-with-directive-like-body"),
+         ("inert", "#undef V", "#undef-of-another-macro"), ("inert", "#line 77", "#line")]
+# A text line whose '#' is not the first token of the line (`P7 # else`): never a directive; the line is its own probe.
+HTEXT = [("htext", "else"), ("htext", "endif"), ("htext", "if 1")]
+
+
+def symbols_inert():
+    """Alphabet for the 'lines without effect' enumeration: junk-free core + INERT + HTEXT."""
+    return symbols(with_te=False, junk=False) + INERT + HTEXT
+
+
 def symbols_dead():
     """Alphabet for the 'skipped groups have no effect' enumeration: junk-free core + lines valid only when skipped."""
     return symbols(with_te=False, junk=False) + SKIPPED_ONLY
@@ -103,6 +123,10 @@ def step(state, sym):
     act = active(stack)
     if k == "te":
         return (stack, xdef, act), act
+    if k == "htext":
+        return (stack, xdef, False), act
+    if k == "inert":
+        return (stack, xdef, False), False          # no probe line is rendered after it
     if k == "dead":
         return (stack, xdef, False), act
     if k in ("if", "ifdef", "ifndef"):
@@ -145,6 +169,10 @@ def render(sym, i):
     k = sym[0]
     if k == "te":
         return "P%d E\n" % i
+    if k == "htext":
+        return "P%d # %s\n" % (i, sym[1])
+    if k == "inert":
+        return sym[1] + "\n"
     if k == "dead":
         return "%s\nP%d\n" % (sym[1], i)
     if k == "if":
@@ -170,6 +198,8 @@ def run_sequence(seq):
         st, vis = step(st, sym)
         if vis:
             out.append("P%d" % i)
+            if sym[0] == "htext":
+                out += ["#"] + sym[1].split()
     return out, len(st[0]), trans
 
 
@@ -236,6 +266,32 @@ def transition_cover(maxdepth, syms, k=1):
                 yield from ext(st2, seq + [s], left - 1)
     for st, p in path.items():
         yield from ext(st, list(p), k)
+
+
+def pair_cover(maxdepth, syms, first, second):
+    """For every state of the model closure over `syms` (shortest trace): every line of `first` followed DIRECTLY by
+    every enabled symbol of `second`, then the distinguishing suffix."""
+    path = {INIT: ()}
+    todo = [INIT]
+    while todo:
+        nxt = []
+        for st in todo:
+            for s in syms:
+                if enabled(st, s, maxdepth):
+                    st2, _ = step(st, s)
+                    if st2 not in path:
+                        path[st2] = path[st] + (s,)
+                        nxt.append(st2)
+        todo = nxt
+    for st, p in path.items():
+        for a in first:
+            if not enabled(st, a, maxdepth):
+                continue
+            st1, _ = step(st, a)
+            for b in second:
+                if enabled(st1, b, maxdepth):
+                    st2, _ = step(st1, b)
+                    yield p + (a, b) + tuple(distinguishing_suffix(st2))
 
 
 def enumerate_sequences(prefix, n, maxdepth, syms, need=None):
@@ -414,6 +470,7 @@ class Reject(Exception):
 
 
 _TOK = re.compile(r"[A-Za-z_][A-Za-z0-9_]*|\d+|==|!=|\S")
+_COMMENT = re.compile(r"/\*.*?\*/|//.*$")
 
 
 def lex(s):
@@ -434,7 +491,8 @@ class Cpp:
         self.maxdepth = maxdepth
         self.depth = 0
         self.included = []          # resolved paths in inclusion order
-        self.events = []            # (directive, quote, name, resolved path, chain index, len(out) at that point)
+        self.events = []            # (directive, quote, name, resolved path, chain index, len(out) at that point, includer)
+        self.pending = None
 
     # ---- lookup ---------------------------------------------------------
     def _find(self, name, start):
@@ -509,8 +567,9 @@ class Cpp:
             raise Reject("include depth")
         self.included.append(path)
         stack = []      # [ctx, taken, active]
-        for line in self.files[path].split("\n"):
-            toks = lex(line)
+        # translation phases 2 and 3 as far as needed: splice lines, drop comments (never spanning lines here)
+        for line in self.files[path].replace("\\\n", "").split("\n"):
+            toks = lex(_COMMENT.sub(" ", line))
             if not toks:
                 continue
             act = all(f[2] for f in stack)
@@ -574,6 +633,8 @@ class Cpp:
                 stack.pop()
             elif not act:
                 continue
+            elif d == "" or d == "line":
+                continue            # null directive (6.10.7); #line changes no token
             elif d == "define" and re.match(r"\s*#\s*define\s+\w+\(\w+\)", line):
                 self.macros.pop(a[0], None)
                 self.fmacros[a[0]] = (a[2], a[4:])
@@ -600,8 +661,9 @@ class Cpp:
                 nxt = d == "include_next"
                 if nxt and primary:
                     raise Undef("#include_next in the primary file")
+                self.pending = (d, quote, name, path)       # the lookup in progress (kept when it raises Reject)
                 p, i = self.resolve(name, quote, path, idx, nxt)
-                self.events.append((d, quote, name, p, i, len(self.out)))
+                self.events.append((d, quote, name, p, i, len(self.out), path))
                 self.process(p, i)
             else:
                 raise Undef("directive " + d)
